@@ -143,6 +143,11 @@ func runC05(c *eng.Ctx, thorough bool) {
 		n := 0
 		for _, st := range eng.Stores(f, `\.(Secret|Auth)\.(LeaseOptions\.)?TTL$`) {
 			n++
+			if ok, _, _ := eng.OriginsMatch(st.Val, `^call:time\.\(Time\)\.Sub$`); ok {
+				// batch-token clamp: recomputed from the clamped expiry, only behind "expires after the token"
+				c.Cut(f, "TTL recomputed from the batch token's expiry", []ssa.Instruction{st}, eng.G(f, `^time\.\(Time\)\.After\(\)$`, true), nil)
+				continue
+			}
 			c.Prov(f, "TTL granted on renewal", st, st.Val, `^call:framework\.CalculateTTL#0$`)
 		}
 		c.Floor(f, "TTL store", n, 1)
@@ -185,6 +190,7 @@ func runC05(c *eng.Ctx, thorough bool) {
 			"vault.(*ExpirationManager).FetchLeaseTimesByToken":              {`time\.\(Time\)\.Add$`},
 			"vault.(*ExpirationManager).FetchLeaseTimes":                     {`\.ExpireTime$`},
 			"vault.(*ExpirationManager).leaseTimesForExport":                 {`\.ExpireTime$`},
+			"vault.(*ExpirationManager).leaseInfoForExport":                  {`\.ExpireTime$`},
 			"vault.(*ExpirationManager).markLeaseIrrevocable":                {`^const:`, `\.ExpireTime$`},
 			"vault.(*ExpirationManager).inMemoryLeaseInfo":                   {`\.ExpireTime$`, `^const:`},
 			"vault.(*Core).AddIrrevocableLease":                              {`.*`},
@@ -255,7 +261,21 @@ func runC05(c *eng.Ctx, thorough bool) {
 		if top == "vault.(*ExpirationManager).Renew" || top == "vault.(*ExpirationManager).RenewToken" {
 			continue // checked above
 		}
-		c.CleanupOnEdges(s.Fn, "persistEntry succeeded", eng.CallOKEdges(s.Call), "updatePending", instrsOf(eng.Calls(s.Fn, `vault\.\(\*ExpirationManager\)\.updatePending$`)))
+		{
+			f := s.Fn
+			idx := f.Signature.Results().Len() - 1
+			succ := eng.SuccessReturns(f, idx)
+			up := instrsOf(eng.Calls(f, `vault\.\(\*ExpirationManager\)\.updatePending$`))
+			if h := eng.Reach(eng.Query{Fn: f, StartEdges: eng.CallOKEdgesDirect(s.Call), Barriers: up, Target: eng.IsTarget(succ)}); h != nil || len(eng.CallOKEdgesDirect(s.Call)) == 0 {
+				var w []string
+				if h != nil {
+					w = h.Witness
+				}
+				c.Violation(f, "persisted ⇒ tracked", s.Call.Pos(), "a lease can be persisted and success reported without handing it to updatePending (it would never expire on this node)", w)
+			} else {
+				c.OK(f, "persisted ⇒ tracked", s.Call.Pos(), "every successful return after persistEntry succeeded passes updatePending")
+			}
+		}
 	}
 	c.Floor(nil, "persistEntry call sites", nPersist, 7)
 	c.Clause("R1", "C05.4")
@@ -273,7 +293,7 @@ func runC05(c *eng.Ctx, thorough bool) {
 				succ = append(succ, r)
 			}
 		}
-		if h := eng.Reach(eng.Query{Fn: f, StartEdges: eng.CallOKEdges(s.Call), Barriers: rev, Target: eng.IsTarget(succ)}); h != nil && len(eng.CallOKEdges(s.Call)) > 0 {
+		if h := eng.Reach(eng.Query{Fn: f, StartEdges: eng.CallOKEdgesDirect(s.Call), Barriers: rev, Target: eng.IsTarget(succ)}); h != nil && len(eng.CallOKEdgesDirect(s.Call)) > 0 {
 			c.Violation(f, "revocation lease is revoked by its creator", s.Call.Pos(), "a revocation lease can be created and left without revoking it (it is not tracked for expiry)", h.Witness)
 		} else {
 			c.OK(f, "revocation lease is revoked by its creator", s.Call.Pos(), "success edge leads to Revoke/LazyRevoke before any successful return")
@@ -309,7 +329,7 @@ func runC05(c *eng.Ctx, thorough bool) {
 		c.Clause("R12", "C05.5")
 		for _, l := range eng.Calls(f, `vault\.\(\*ExpirationManager\)\.loadEntryInternal$`) {
 			a := l.Common().Args
-			if eng.Expr(a[3]) == "true" {
+			if eng.Expr(a[3]) == "true" || strings.HasSuffix(eng.Expr(a[3]), ".inRestoreMode()") {
 				c.OK(f, "const{loadEntryInternal(restoreMode=true)}", l.Pos(), "restore mode tracks the loaded lease")
 			} else {
 				c.Violation(f, "const{loadEntryInternal(restoreMode=true)}", l.Pos(), "restoreMode="+eng.Expr(a[3]), nil)
@@ -321,6 +341,7 @@ func runC05(c *eng.Ctx, thorough bool) {
 		up := instrsOf(eng.Calls(f, `vault\.\(\*ExpirationManager\)\.updatePending(Internal)?$`))
 		if c.Floor(f, "updatePending in loadEntryInternal", len(up), 1) {
 			c.Cut(f, "track the restored lease", up, eng.G(f, `^restoreMode$`, true), nil)
+			c.Exception("vault.(*ExpirationManager).loadEntryInternal: m.useCache == false", "a node that does not process expirations (standby) tracks nothing; it re-restores when it becomes active")
 			// in restore mode a found lease is tracked unless already loaded
 			succ := eng.SuccessReturns(f, 1)
 			var withEntry []ssa.Instruction
@@ -329,7 +350,7 @@ func runC05(c *eng.Ctx, thorough bool) {
 					withEntry = append(withEntry, r)
 				}
 			}
-			if h := eng.Reach(eng.Query{Fn: f, Assume: map[string]bool{`^restoreMode$`: true}, Barriers: up, Blocked: eng.CondEdges(f, `restoreLoaded.*#1$|sync\.\(\*Map\)\.Load\(\)#1$`, true), Target: eng.IsTarget(withEntry)}); h != nil {
+			if h := eng.Reach(eng.Query{Fn: f, Assume: map[string]bool{`^restoreMode$`: true}, Barriers: up, Blocked: append(eng.CondEdges(f, `restoreLoaded.*#1$|sync\.\(\*Map\)\.Load\(\)#1$`, true), eng.CondEdges(f, `^m\.useCache$`, false)...), Target: eng.IsTarget(withEntry)}); h != nil {
 				c.Violation(f, "restore mode tracks what it loads", h.Instr.Pos(), "in restore mode a lease can be loaded without being tracked for expiry", h.Witness)
 			} else {
 				c.OK(f, "restore mode tracks what it loads", up[0].Pos(), "every entry-returning path in restore mode passes updatePending or finds the lease already restored")
